@@ -1,5 +1,6 @@
 use crate::framework::Check;
 
+pub mod c01;
 pub mod c04;
 pub mod c06;
 pub mod c07;
@@ -8,5 +9,5 @@ pub mod c09;
 pub mod c10;
 
 pub fn all() -> Vec<&'static dyn Check> {
-    vec![&c04::C04, &c06::C06, &c07::C07, &c08::C08, &c09::C09, &c10::C10]
+    vec![&c01::C01, &c04::C04, &c06::C06, &c07::C07, &c08::C08, &c09::C09, &c10::C10]
 }
